@@ -554,10 +554,12 @@ class Builder:
                 leaves.append((nm, "i"))
         exprs = []
         for ei in range(r.below(3)):
-            t, ty = self.tree(2, leaves)
             nm = "X%d" % ei
+            lv = leaves
             if r.chance(1, 12) and consts:
-                nm = consts[0][0]                    # an expression shadowing a constant
+                nm = consts[0][0]                    # an expression shadowing a constant (and not using the name itself)
+                lv = [x for x in leaves if x[0] != nm]
+            t, ty = self.tree(2, lv)
             exprs.append((nm, t))
             leaves.append((nm, ty))
         if r.chance(1, 60):
